@@ -1,6 +1,7 @@
 import NssVerif.RealInst
 import NssVerif.Model.Target
 import NssVerif.Gen.Src.C13
+import NssVerif.Gen.Src.C13Time
 import NssVerif.Lemmas.Target
 import NssVerif.Props.C03
 import Mathlib.Tactic.Ring
@@ -413,5 +414,36 @@ theorem src_throw {α : Type} [Scalar α] (R D limb times altRad altDeg azDeg : 
 theorem src_sunMoonCut {α : Type} [Scalar α] (sunCut moonCut minPhase sunAlt moonAlt phase : α) :
     Gen.Src.C13.sunMoonCut sunCut moonCut minPhase sunAlt moonAlt phase
       = darkSky sunCut moonCut minPhase sunAlt moonAlt phase := rfl
+
+
+/-! ### source tie: the time grid `generate_times` as read from the Python source (`Gen/Src/C13Time.lean`, harness/timetrans.py) -/
+
+/-- the offsets (seconds after the source date) that `generate_times(n)` produces, as read statement by statement from the
+source, are the model's `timeOffsets`, for every `Scalar` (over ℝ and at `Float`) -/
+theorem src_generateTimes {α : Type} [Scalar α] (n : Nat) (T : α) :
+    Gen.Src.C13Time.offsets n T = timeOffsets n T := rfl
+
+/-- hence the grid clauses hold for the function as read from the source: `n` instants, the first at the source date, equally
+spaced by `T/n`, the last at `T − T/n` -/
+theorem src_time_grid (n : Nat) (T : ℝ) (hn : 0 < n) :
+    (Gen.Src.C13Time.offsets n T).length = n
+      ∧ (Gen.Src.C13Time.offsets n T)[0]? = some 0
+      ∧ (∀ k (hk : k + 1 < n), (Gen.Src.C13Time.offsets n T)[k+1]? = some ((k + 1 : ℝ) / n * T)
+                                ∧ (Gen.Src.C13Time.offsets n T)[k]? = some ((k : ℝ) / n * T)) := by
+  rw [src_generateTimes]
+  have hlen := time_grid_length n T
+  have get? : ∀ k (hk : k < n), (timeOffsets n T)[k]? = some ((k : ℝ) / n * T) := by
+    intro k hk
+    rw [List.getElem?_eq_getElem (by rw [hlen]; exact hk), time_grid_get n T k hk]
+  refine ⟨hlen, ?_, ?_⟩
+  · have := get? 0 hn
+    simpa using this
+  · intro k hk
+    refine ⟨?_, get? k (by omega)⟩
+    have := get? (k + 1) hk
+    simpa using this
+
+/-- the observation window is read from the target section of the configuration -/
+theorem src_window_source : Gen.Src.C13Time.windowSource = "config.simulation.target.source_obst" := by decide
 
 end C13
